@@ -86,6 +86,17 @@ func wrapErr(parent Value) Value {
 }
 
 func init() {
+	// reflect.TypeOf: a type identity that only supports == (dynamic type name boxed as an interface value)
+	reg("reflect.TypeOf", func(e *Engine, fn *ssa.Function, a []Value) Value {
+		iv, _ := a[0].(*IfaceVal)
+		if iv == nil {
+			return nil
+		}
+		return &IfaceVal{T: types.Typ[types.String], V: StrConst(typeKey(iv.T))}
+	})
+}
+
+func init() {
 	const em = "cosmossdk.io/errors."
 	register := func(e *Engine, fn *ssa.Function, a []Value) Value {
 		id := "registered-error"
